@@ -298,7 +298,7 @@ def sig(*parts):
 
 
 def pos_sizes(ctx):
-    return (30, 600, 60) if ctx.quick else (1500, 40000, 4000)       # playout games, synthetic placements, spec sample
+    return (30, 600, 400) if ctx.quick else (1500, 40000, 6000)       # playout games, synthetic placements, spec sample
 
 
 def shrink_fen(fen, still_fails, budget=60):
@@ -407,8 +407,18 @@ def c01(ctx):
                             signature=sig('c01', ps['fens'][i]))
         else:
             ctx.corr_broken.append({'fen': ps['fens'][i], 'field': f, 'impl': a[:300], 'model': b[:300]})
-    return {'evaluations': n, 'distinct_nontrivial': len(nontrivial),
+    scases, sbad, smoves = succ_stream(ctx, 's01')
+    for (fen, mv, what, a, b) in sbad[:50]:
+        if what in ('successor-legal-set', 'legal-set', 'status'):
+            ei, mo = succ_detail(fen, mv) if mv else ('', '')
+            ctx.v.violation('legal-moves-after-a-move-differ-from-rules', {'fen': fen, 'move': mv, 'what': what, 'engine_position_after': ei, 'rules_position_after': mo,
+                            'engine': a, 'model': b, 'how': '`position fen %s moves %s` then `perft 1`; the model (= rules by C01/C02 theorems) lists a different move set' % (fen, mv)},
+                            signature=sig('c01s', fen, mv))
+            if len(ctx.v.violations) >= 5:
+                break
+    return {'evaluations': n + smoves, 'distinct_nontrivial': len(nontrivial), 'successor_positions_checked': smoves,
             'rule': 'positions from biased playouts, synthetic placements (up to 15 promoted pieces), castling/en-passant/pin templates and the 135 suite FENs; '
+                    'plus the legal move set after EVERY legal move of ~600 base positions incl. corner-capture templates (SUCC stream); '
                     'every position also as its colour mirror; non-trivial = distinct placements judged against the Spec oracle (rules of chess)',
             'positions_vs_model': n, 'positions_vs_spec': len(ps['spec']), 'model_vs_impl_mismatches': len(mm), 'input_distribution': ps['stats'],
             'traces_validated_against_impl': n,
@@ -488,12 +498,21 @@ def c02(ctx):
                         'how': '`position %s moves %s` then `tostr`' % (c[1], ' '.join(moves))}, signature=sig('c02', c[1], ' '.join(moves)))
     for i in notwf[:5]:
         ctx.corr_broken.append({'case': cases[i][:300], 'note': 'model position violates its own well-formedness invariant'})
+    scases, sbad, smoves = succ_stream(ctx, 's02')
+    for (fen, mv, what, a, b) in sbad[:50]:
+        if what in ('snapshot', 'bookkeeping', 'status', 'model-not-wf'):
+            ei, mo = succ_detail(fen, mv) if mv else ('', '')
+            ctx.v.violation('position-after-move-differs', {'fen': fen, 'move': mv, 'what': what, 'engine_snapshot_after': ei, 'rules_snapshot_after': mo,
+                            'how': '`position fen %s moves %s` then `tostr`' % (fen, mv)}, signature=sig('c02s', fen, mv))
+            if len(ctx.v.violations) >= 5:
+                break
     nontriv = sum(int(stats.get(k, 0)) for k in ('castles', 'ep_captures', 'promotions', 'corner_captures'))
     return {'evaluations': int(stats.get('plies', 0)), 'distinct_nontrivial': nontriv,
             'rule': 'games from the biased playout generator (start position and corpus FENs, every tenth game up to 400 plies); snapshot (board bytes, '
                     'lists in order, kings, flags, ep, ply) after every ply compared with the model; on the engine alone: PushMove vs ApplyUciMove, '
                     'pop restores the previous snapshot, strict list<->board bijection; non-trivial = plies that castle, capture en passant, promote or capture on a corner',
-            'input_distribution': stats, 'games': len(game_idx), 'model_vs_impl_mismatches': len(mism), 'traces_validated_against_impl': len(game_idx),
+            'input_distribution': stats, 'games': len(game_idx), 'model_vs_impl_mismatches': len(mism) + len(sbad), 'traces_validated_against_impl': len(game_idx) + len(scases),
+            'single_moves_from_template_positions': smoves,
             'samples': [{'case': cases[game_idx[0]][:200]}] if game_idx else []}
 
 
@@ -590,6 +609,15 @@ def c07(ctx):
             ctx.v.violation('position-command-differs-from-playing-the-moves', {'observation': text[:1500]}, signature=sig('c07', text[:120]))
             if len(ctx.v.violations) >= 5:
                 break
+    # the move-list path itself (ApplyUciMove after parseMoveString), ply by ply: what `position <start> moves m1..mk` sets up for every k
+    gidx = [i for i, c in enumerate(cases) if c.startswith('GAME')]
+    for i in [i for i in gidx if impl[i] != model[i].replace('|NOTWF', '')][:10]:
+        c = cases[i].split('\t')
+        ply, a, b = first_diff_ply(impl[i], model[i])
+        moves = c[2].split()[:ply]
+        ctx.v.violation('position-with-move-list-sets-up-a-different-position', {'start': c[1], 'moves': ' '.join(moves), 'engine_snapshot': a, 'rules_snapshot': b,
+                        'how': '`position %s moves %s` then `tostr`' % (c[1] if c[1] == 'startpos' else 'fen ' + c[1], ' '.join(moves))},
+                        signature=sig('c07g', c[1], ' '.join(moves)))
     idx = [i for i, c in enumerate(cases) if c.startswith('POSCMD')]
     mism = [i for i in idx if impl[i] != model[i]]
     for i in mism[:10]:
@@ -767,7 +795,12 @@ import search as S
 
 def search_batch(ctx, n, quick_depth_cap=None, tag=''):
     """positions with a legal move, `go depth d` on the engine and the model's iterative deepening on the same (fen, d)"""
-    pos = [p for p in S.positions(ctx, n) if p['nlegal'] > 0]
+    allp = [p for p in S.positions(ctx, n) if p['nlegal'] > 0]
+    # the extracted model is fast on sparse positions: take all of them, and a sample of the dense ones
+    sparse = [p for p in allp if p['men'] <= 8]
+    dense = [p for p in allp if p['men'] > 8]
+    keep_dense = max(40, n // 12)
+    pos = sparse + dense[::max(1, len(dense) // keep_dense)]
     jobs = []
     for p in pos:
         d = S.depth_for(p, ctx.quick)
@@ -792,7 +825,7 @@ def crash_violation(ctx, p, prop_note):
 
 @check('C04', ['C04.v'])
 def c04(ctx):
-    n = 110 if ctx.quick else 3000
+    n = 1000 if ctx.quick else 30000
     pos = search_batch(ctx, n)
     compared = deviations = sens_skipped = 0
     nontrivial = set()
@@ -826,24 +859,34 @@ def c04(ctx):
             suspicious.append((p, last_impl, 'engine stopped after iteration %d, model after %d (go depth %d)' % (last_impl, last_model, p['depth']), None))
     # re-judge every disagreement against the property itself: the exact minimax value of the full tree, and whether that
     # tree contains a lazy-sensitive node (the admitted deviation)
+    undecided = 0
     if suspicious:
-        reqs = ['MINIMAXS\t%s\t%d' % (p['fen'], k) for (p, k, what, info) in suspicious[:40]]
-        outs = run_oracle(reqs)
-        for (p, k, what, info), o in zip(suspicious[:40], outs):
-            if what == 'score' and o.startswith('OK|'):
-                _, v, s = o.split('|')
-                exact = S.format_score(int(v))
-                if s == '1':
-                    sens_skipped += 1
+        sus = suspicious[:200]
+        open(RUN + '/c04.refmm', 'w').write(''.join('%s\t%d\n' % (p['fen'], k) for (p, k, what, info) in sus))
+        rc, outp, err, _ = harness(['refmm', RUN + '/c04.refmm'], timeout=1200)
+        outs = outp.strip().split('\n') if outp.strip() else []
+        outs += ['FAILED'] * (len(sus) - len(outs))
+        for (p, k, what, info), o in zip(sus, outs):
+            if what == 'score':
+                if not o.startswith('OK|'):
+                    undecided += 1
                     continue
+                _, v, sflag, nodes = o.split('|')
+                exact = S.format_score(int(v))
+                if sflag == '1':
+                    sens_skipped += 1          # the tree contains a lazy-sensitive node: the deviation the property admits
+                    continue
+                mval = [i for i in p['model']['iters'] if i['depth'] == k]
                 if (info[0], info[1]) != exact:
                     ctx.v.violation('score-differs-from-minimax', {'fen': p['fen'], 'depth': k, 'engine_score': '%s %d' % (info[0], info[1]),
                                     'minimax_value': int(v), 'minimax_as_reported': '%s %d' % exact, 'tree_has_lazy_sensitive_node': False,
-                                    'how': '`position fen %s`, `go depth %d`, read `info depth %d` (or final `info score`)' % (p['fen'], p['depth'], k)},
+                                    'model_search_value': mval[0]['score'] if mval else None, 'reference_nodes': int(nodes),
+                                    'how': '`position fen %s`, `go depth %d`, read `info depth %d` (or the final `info score`); reference = plain minimax of the '
+                                           'full tree with the engine\'s own generator and full evaluation (verifh refmm)' % (p['fen'], p['depth'], k)},
                                     signature=sig('c04', p['fen'], k))
                 else:
-                    deviations += 1      # model's alpha-beta disagreed but engine equals minimax: model ordering hit a sensitive node
-            elif what != 'score':
+                    deviations += 1      # the engine equals minimax; the model search (its own ordering) met a sensitive node
+            else:
                 ctx.v.violation('iterations-completed-differ', {'fen': p['fen'], 'go': 'go depth %d' % p['depth'], 'observation': what,
                                 'engine_depth_lines': sorted(S.impl_iterations(p['parsed'])), 'model_iterations': [i['depth'] for i in p['model']['iters']],
                                 'model_scores': [i['score'] for i in p['model']['iters']]}, signature=sig('c04it', p['fen'], p['depth']))
@@ -988,8 +1031,11 @@ CLOSE = 20800
 
 @check('C03', ['C03.v'])
 def c03(ctx):
-    n = 60 if ctx.quick else 1500
-    pos = [p for p in S.positions(ctx, n, extra_seed=3) if p['nlegal'] > 0]
+    n = 160 if ctx.quick else 3000
+    allp = [p for p in S.positions(ctx, n, extra_seed=3) if p['nlegal'] > 0]
+    lists = [p for p in allp if p['src'].startswith('movelist')]
+    others = [p for p in allp if not p['src'].startswith('movelist')]
+    pos = lists + others[:max(60, n // 2)]
     forms = []
     for k, p in enumerate(pos):
         w = ' w ' in p['fen']
@@ -1025,7 +1071,7 @@ def c03(ctx):
     e.ready()
     multi = 0
     for p in pos[:15]:
-        e.send('position fen ' + p['fen'])
+        e.send(S.pos_cmd(p['fen']))
         n0 = len(e.lines)
         for g in ('go depth 1', 'go movetime 1', 'go depth 2'):
             e.send(g)
@@ -1130,18 +1176,28 @@ def strip_volatile(lines):
 
 @check('C14', ['C14.v'])
 def c14(ctx):
-    n = 40 if ctx.quick else 800
-    pos = [p for p in S.positions(ctx, n, extra_seed=14) if p['nlegal'] > 0]
+    n = 60 if ctx.quick else 1200
+    pos = [p for p in S.positions(ctx, n, extra_seed=14) if p['nlegal'] > 0 and p['men'] >= 6]
     rnd = ctx.rng
     others = [p['fen'] for p in pos]
     jobs_a, jobs_b = [], []
-    for p in pos:
+    MOVE_NUMBERS = [1, 2, 30, 100, 150, 156, 160, 165, 170, 174, 175, 176, 200, 330, 340, 349, 350, 351, 500, 5000]
+    for pi, p in enumerate(pos):
         d = max(2, S.depth_for(p, ctx.quick))
+        if not p['fen'].startswith('startpos'):
+            f = p['fen'].split(' ')
+            f[5] = str(MOVE_NUMBERS[pi % len(MOVE_NUMBERS)])      # game-ply dependent state (killer slots) at and around its boundaries
+            p['fen'] = ' '.join(f)
         # history: other games, searches (completed and stopped), perft/eval, option changes, isready
         hist = []
+        if pi % 2 == 0:
+            # the same position searched deeper before: its killer moves are the ones that matter in the probe's tree
+            hist += [S.pos_cmd(p['fen']), 'go depth %d' % (d + 1), ('wait',)]
         for _ in range(rnd.randint(1, 4)):
             o = rnd.choice(others)
-            hist.append('position fen ' + o)
+            if rnd.random() < 0.3:
+                o = p['fen']
+            hist.append(S.pos_cmd(o))
             k = rnd.randint(0, 5)
             if k == 0:
                 hist += ['go depth 2', ('wait',)]
@@ -1182,8 +1238,8 @@ def c14(ctx):
 # =====================================================================================================
 # C11 / C12: schedules (search thread held at a phase through the sync hook)
 
-def run_sched(ctx, npos, maxd, maxk, binary='verifh'):
-    rc, out, err, stats = harness(['sched', str(npos), str(maxd), str(maxk)], timeout=3000, binary=binary)
+def run_sched(ctx, npos, maxd, maxk, binary='verifh', mode='all'):
+    rc, out, err, stats = harness(['sched', str(npos), str(maxd), str(maxk), mode], timeout=3000, binary=binary)
     rows = []
     for l in out.split('\n'):
         l = l.strip()
@@ -1207,7 +1263,7 @@ def sched_desc(r):
 @check('C11', ['C11.v'])
 def c11(ctx):
     npos, maxd, maxk = (3, 3, 3) if ctx.quick else (12, 4, 8)
-    rows, err, rc = run_sched(ctx, npos, maxd, maxk)
+    rows, err, rc = run_sched(ctx, npos, maxd, maxk, mode='c11')
     cut = [r for r in rows if ('stop' in r['cmds'] or r['hold_ms'] > 0) and r['reached']]
     req, meta = [], []
     nontrivial = set()
@@ -1262,7 +1318,7 @@ def c11(ctx):
 @check('C12', ['C12.v'], race=True)
 def c12(ctx):
     npos, maxd, maxk = (3, 3, 3) if ctx.quick else (10, 4, 6)
-    rows, err, rc = run_sched(ctx, npos, maxd, maxk)
+    rows, err, rc = run_sched(ctx, npos, maxd, maxk, mode='c12')
     nontrivial = set()
     for r in rows:
         nontrivial.add((r['at'], ' '.join(r['cmds']), r['go'].split()[1]))
@@ -1291,7 +1347,7 @@ def c12(ctx):
                         'observed': out2.strip(), 'expected': 'blocked=0 bestmoves=1 readyoks=3', 'stderr': err2[-500:]}, signature='c12idle')
     races = None
     if not ctx.quick and os.path.exists(common.B + '/verifh_race'):
-        rows2, err_r, rc_r = run_sched(ctx, 2, 2, 2, binary='verifh_race')
+        rows2, err_r, rc_r = run_sched(ctx, 2, 2, 2, binary='verifh_race', mode='c12')
         races = err_r.count('WARNING: DATA RACE')
         if races:
             ctx.v.violation('data-race-between-command-and-search-thread', {'race_detector_report': err_r[:3000], 'schedules_run': len(rows2)}, signature='c12race')
@@ -1486,9 +1542,17 @@ def c19(ctx):
     trials = []
     for i in range(n):
         pre = []
-        state = rng.choice(['rest', 'rest-pos', 'searching', 'just-go', 'after-search', 'perft'])
-        if state != 'rest':
+        state = rng.choice(['rest', 'rest-pos', 'searching', 'just-go', 'after-search', 'perft', 'terminal-root-go', 'terminal-root-go', 'stopped-search', 'isready-then'])
+        if state == 'terminal-root-go':
+            pre.append(rng.choice(['position fen 7k/5Q2/6K1/8/8/8/8/8 b - - 0 1', 'position startpos moves f2f3 e7e5 g2g4 d8h4',
+                                   'position fen 7k/6Q1/6K1/8/8/8/8/8 b - - 0 1']))
+            pre.append(rng.choice(['go depth 5', 'go movetime 200', 'go wtime 60000 btime 60000', 'go infinite']))
+        elif state != 'rest':
             pre.append('position startpos moves e2e4')
+        if state == 'stopped-search':
+            pre += ['go infinite', 'stop']
+        if state == 'isready-then':
+            pre += ['isready', 'go depth 3', 'isready']
         if state == 'searching':
             pre.append('go infinite')
         elif state == 'just-go':
@@ -1498,7 +1562,7 @@ def c19(ctx):
         elif state == 'perft':
             pre.append('perft 3')
         end = rng.choice(['quit', 'eof'])
-        delay = rng.choice([0.0, 0.0, 0.05, 0.3]) if state in ('searching', 'after-search') else 0.0
+        delay = rng.choice([0.0, 0.0, 0.05, 0.3]) if state in ('searching', 'after-search', 'terminal-root-go', 'stopped-search', 'isready-then') else 0.0
         trials.append((state, pre, end, delay))
     bad = 0
     samples = []
@@ -1540,3 +1604,44 @@ def c19(ctx):
             'rule': 'child processes in the states {at rest, position set, searching, right after go, after a finished search, after perft} ended by `quit` or by closing stdin; '
                     'must exit with status 0 within 3 s; non-trivial = distinct (state, ending)',
             'traces_validated_against_impl': len(trials), 'samples': samples[:4], 'partial': ['process teardown is observed only']}
+
+
+# ---- SUCC stream: every legal move of many positions (incl. corner-capture templates): successor snapshot and successor legal set
+
+def succ_stream(ctx, name):
+    games, synth = (12, 250) if ctx.quick else (600, 20000)
+    cases, impl, model, model_raw, notes, stats = line_stream(ctx, 'succ', name, [games, synth])
+    bad = []           # (fen, move, what, impl, model)
+    nmoves = 0
+    for c, a, b in zip(cases, impl, model):
+        fen = c.split('\t', 1)[1]
+        if not a.startswith('OK|') or not b.startswith('OK|'):
+            if a != b:
+                bad.append((fen, None, 'status', a[:200], b[:200]))
+            continue
+        ra = dict((x.split(':', 1)[0], x.split(':')[1:]) for x in a[3:].split())
+        rb = dict((x.split(':', 1)[0], x.split(':')[1:]) for x in b[3:].split())
+        nmoves += len(ra)
+        if set(ra) != set(rb):
+            bad.append((fen, None, 'legal-set', ' '.join(sorted(ra)), ' '.join(sorted(rb))))
+            continue
+        for m in ra:
+            if 'BOOKKEEPING' in ra[m]:
+                bad.append((fen, m, 'bookkeeping', ra[m], rb[m]))
+                continue
+            if ra[m][0] != rb[m][0]:
+                bad.append((fen, m, 'snapshot', ra[m], rb[m]))
+            if ra[m][1:2] != rb[m][1:2]:
+                bad.append((fen, m, 'successor-legal-set', ra[m], rb[m]))
+            if 'NOTWF' in rb[m]:
+                bad.append((fen, m, 'model-not-wf', ra[m], rb[m]))
+    return cases, bad, nmoves
+
+
+def succ_detail(fen, move):
+    """full snapshots and legal sets after fen + move, engine and model"""
+    open(RUN + '/one.game', 'w').write('%s\t%s\n' % (fen, move))
+    rc, out, err, _ = harness(['game1', RUN + '/one.game'])
+    impl = out.strip().split('\n')[0] if out.strip() else ''
+    model = run_oracle(['GAME\t%s\t%s' % (fen, move)])[0]
+    return impl.split('|')[-1][:400], model.split('|')[-1][:400]
